@@ -57,6 +57,9 @@ type variant struct {
 	// Complex: the TraceQL complexity estimate is answered with 25e6 index rows, so the search runs through the
 	// complex request processor: three portions, the later ones also carrying the trace ids found so far
 	Complex bool `json:"complex,omitempty"`
+	// SmallLimit > 0 (portioned searches only): the search asks for that many traces, so that an early portion
+	// already fills the answer and the later ones run with whatever the processor carries over
+	SmallLimit int `json:"small_limit,omitempty"`
 }
 
 func (v variant) name() string {
